@@ -34,6 +34,10 @@ def define(db, orm):
         vol = orm.Required(int, volatile=True)
         lz = orm.Optional(str, lazy=True)
         g = orm.Optional(G, reverse='items')
+        detail = orm.Optional('D', reverse='item')        # one-to-one, no column on this side
+    class D(db.Entity):
+        id = orm.PrimaryKey(int)
+        item = orm.Optional(I, reverse='detail', column='item')
     class V(db.Entity):
         id = orm.PrimaryKey(int)
         g = orm.Optional(G, reverse='vitems')
@@ -43,10 +47,11 @@ def define(db, orm):
         groups = orm.Set(G, reverse='tags')
 
 def populate(E):
-    G, I, V, T = E['G'], E['I'], E['V'], E['T']
+    G, I, V, T, D = E['G'], E['I'], E['V'], E['T'], E['D']
     g1, g2 = G(id=1, name='g1'), G(id=2, name='g2')
     I(id=1, val=0, vol=0, lz='l1', g=g1); I(id=2, val=0, vol=0, lz='l2', g=g1); I(id=3, val=0, vol=0, lz='l3', g=g2)
     V(id=1, g=g1); V(id=2, g=g2)
+    D(id=1, item=I[1]); D(id=2)
     t1, t2 = T(id=1, label='t1'), T(id=2, label='t2')
     g1.tags.add(t1); g2.tags.add(t2)
 
@@ -71,6 +76,9 @@ READERS = [
     P('lz|q_all', ('attr', 'I', 1, 'lz'), ('q_all', 'I'), ('load', 'I', 1, 'lz'), ('attr', 'I', 1, 'lz')),
     P('g|q_one', ('attr', 'I', 1, 'g'), ('q_one', 'I', 1), ('attr', 'I', 1, 'g')),
     P('g|other_side', ('attr', 'I', 1, 'g'), ('items', 'G', 2, 'items'), ('attr', 'I', 1, 'g')),
+    P('item|q_other', ('attr', 'D', 1, 'item'), ('q_one', 'D', 2), ('attr', 'D', 1, 'item')),
+    P('item|q_all', ('attr', 'D', 1, 'item'), ('q_all', 'D'), ('attr', 'D', 1, 'item')),
+    P('detail|q_all', ('attr', 'I', 1, 'detail'), ('q_all', 'D'), ('attr', 'I', 1, 'detail')),
     P('name|q_all', ('attr', 'G', 1, 'name'), ('q_all', 'G'), ('attr', 'G', 1, 'name')),
     P('items|cload', ('items', 'G', 1, 'items'), ('cload', 'G', 1, 'items'), ('items', 'G', 1, 'items')),
     P('items|q_all', ('items', 'G', 1, 'items'), ('q_all', 'I'), ('items', 'G', 1, 'items'), ('len', 'G', 1, 'items')),
@@ -101,6 +109,7 @@ WRITERS = [
     P('new_I4', ('new', 'I', 4, 1)),
     P('tag_add', ('m2m', 'add', 1, 2)),
     P('tag_remove', ('m2m', 'remove', 1, 1)),
+    P('swap_detail', ('link1', 1, None), ('link1', 2, 1)),
     P('move_V1', ('link', 'V', 1, 'g', 2)),
     P('move_V2_in', ('link', 'V', 2, 'g', 1)),
 ]
@@ -128,7 +137,7 @@ def interpret(t, prog, orm, E, note):
             _, ename, o, attr = op
             obj = get(ename, o)
             val = getattr(obj, attr)
-            if attr == 'g': val = pk(val)
+            if attr in ('g', 'item', 'detail'): val = pk(val)
             note('obs', '%s[%s].%s' % (ename, o, attr), val)
         elif k == 'load':
             obj = get(op[1], op[2])
@@ -166,6 +175,8 @@ def interpret(t, prog, orm, E, note):
             get(op[1], op[2]).delete()
         elif k == 'link':
             setattr(get(op[1], op[2]), op[3], None if op[4] is None else E['G'][op[4]])
+        elif k == 'link1':
+            E['D'][op[1]].item = None if op[2] is None else E['I'][op[2]]
         elif k == 'new':
             E['I'](id=op[2], val=0, vol=0, lz='l4', g=E['G'][op[3]])
         elif k == 'm2m':
